@@ -400,6 +400,7 @@ func init() {
 		ruleFirstDecides(c, "FIRST-DECIDES", p.ModulePkgs())
 		ruleFormatData(c, "FORMAT-DATA", p.ModulePkgs())
 		ruleNilBreak(c, "NIL-ELEMENT-BREAK", p.ModulePkgs())
+		ruleWalkCut(c, "WALK-CUT", p.ModulePkgs(), 0)
 		for _, o := range c.Obls {
 			fmt.Printf("%s\t%s\t%s\t%v\t%s\n", o.Pos, o.Rule, o.Instance, o.OK, short(o.Msg, 160))
 		}
